@@ -649,6 +649,31 @@ pub fn worker_c02(_space: &str, idx: u64) -> Value {
     })
 }
 
+/// (type, byte range) of every block `"name" = TYPE ... ..` of a BDL text
+fn text_blocks(text: &str) -> Vec<(String, usize, usize)> {
+    let mut v = vec![];
+    let mut pos = 0;
+    let mut open: Option<(String, usize)> = None;
+    for l in text.split_inclusive('\n') {
+        let t = l.trim();
+        if open.is_none() {
+            if t.starts_with('"') {
+                if let Some((_, ty)) = t.rsplit_once('=') {
+                    let ty = ty.trim();
+                    if !ty.is_empty() && ty.chars().all(|c| c.is_ascii_uppercase() || c == '-') {
+                        open = Some((ty.to_string(), pos));
+                    }
+                }
+            }
+        } else if t == ".." {
+            let (ty, start) = open.take().unwrap();
+            v.push((ty, start, pos + l.len()));
+        }
+        pos += l.len();
+    }
+    v
+}
+
 pub fn run_c02(ctx: &Ctx) -> i32 {
     let st = build_state();
     // (a) every convertible project: closed, checker silent
@@ -767,6 +792,143 @@ pub fn run_c02(ctx: &Ctx) -> i32 {
             }
         }
     }
+    // (d) the same breakage on the parsed project data (what an importer, a script or a later pass hands to the
+    // converter): one name reference of one element redirected to an unknown name, one element renamed under its
+    // referrers, one catalogue entry or schedule removed
+    let mut data_n = 0u64;
+    {
+        let mut texts: Vec<(String, String, bool)> = vec![];
+        let mut sized: Vec<&FileCases> = st.files.iter().filter(|f| matches!(f.fmt, Fmt::Ctehexml)).collect();
+        sized.sort_by_key(|f| f.lines.len());
+        for f in sized.iter().take(ctx.tier.pick(3, 12)) {
+            texts.push((f.path.rsplit('/').next().unwrap().to_string(), corpus::read_utf8(&f.path), false));
+        }
+        let mut sized: Vec<&FileCases> = st.files.iter().filter(|f| matches!(f.fmt, Fmt::Cte)).collect();
+        sized.sort_by_key(|f| f.lines.len());
+        for f in sized.iter().take(ctx.tier.pick(2, 56)) {
+            texts.push((f.path.rsplit('/').next().unwrap().to_string(), corpus::read_latin1(&f.path), true));
+        }
+        for sp in specs.iter().step_by(ctx.tier.pick(97, 9)) {
+            texts.push((format!("generated {:?}", sp), crate::projgen::ctehexml_text(sp), false));
+        }
+        let cnt = std::sync::atomic::AtomicU64::new(0);
+        par_for(texts.len() as u64, |ti| {
+            let (name, text, is_cte) = &texts[ti as usize];
+            let Ok(Ok(d0)) = catch(std::panic::AssertUnwindSafe(|| if *is_cte { corpus::parse_cte_text(text) } else { corpus::parse_ctehexml_text(text) })) else { return };
+            if !matches!(catch(std::panic::AssertUnwindSafe(|| corpus::convert(&d0))), Ok(Ok(_))) {
+                return;
+            }
+            let b = &d0.bdldata;
+            let mut edits: Vec<(String, Box<dyn Fn(&mut hulc::bdl::Data) + Sync>)> = vec![];
+            for i in 0..b.walls.len() {
+                edits.push((format!("walls[{}] ({}) .space -> unknown", i, b.walls[i].name), Box::new(move |d| d.walls[i].space = "ZZ unknown".into())));
+                edits.push((format!("walls[{}] ({}) .cons -> unknown", i, b.walls[i].name), Box::new(move |d| d.walls[i].cons = "ZZ unknown".into())));
+                if b.walls[i].nextto.is_some() {
+                    edits.push((format!("walls[{}] ({}) .nextto -> unknown", i, b.walls[i].name), Box::new(move |d| d.walls[i].nextto = Some("ZZ unknown".into()))));
+                }
+                edits.push((format!("walls[{}] ({}) renamed under its windows", i, b.walls[i].name), Box::new(move |d| d.walls[i].name = "ZZ renamed".into())));
+            }
+            for i in 0..b.windows.len() {
+                edits.push((format!("windows[{}] ({}) .wall -> unknown", i, b.windows[i].name), Box::new(move |d| d.windows[i].wall = "ZZ unknown".into())));
+                edits.push((format!("windows[{}] ({}) .cons -> unknown", i, b.windows[i].name), Box::new(move |d| d.windows[i].cons = "ZZ unknown".into())));
+                edits.push((format!("windows[{}] ({}) without shading devices, .wall -> unknown", i, b.windows[i].name), Box::new(move |d| {
+                    d.windows[i].wall = "ZZ unknown".into();
+                    d.windows[i].overhang = None;
+                    d.windows[i].left_fin = None;
+                    d.windows[i].right_fin = None;
+                })));
+            }
+            for i in 0..b.spaces.len() {
+                edits.push((format!("spaces[{}] ({}) renamed under its walls", i, b.spaces[i].name), Box::new(move |d| d.spaces[i].name = "ZZ renamed".into())));
+            }
+            for k in b.db.wallcons.keys().cloned() {
+                edits.push((format!("db.wallcons[{:?}] removed", k), Box::new(move |d| { d.db.wallcons.remove(&k); })));
+            }
+            for k in b.db.wincons.keys().cloned() {
+                edits.push((format!("db.wincons[{:?}] removed", k), Box::new(move |d| { d.db.wincons.remove(&k); })));
+            }
+            // only entries some construction of the project uses (the catalogue has thousands that nobody refers to)
+            let used_mats: std::collections::BTreeSet<String> = b.db.wallcons.values().flat_map(|c| c.material.iter().cloned()).collect();
+            for k in used_mats {
+                edits.push((format!("db.materials[{:?}] removed", k), Box::new(move |d| { d.db.materials.remove(&k); })));
+            }
+            let used_glass: std::collections::BTreeSet<String> = b.db.wincons.values().map(|c| c.glass.clone()).collect();
+            for k in used_glass {
+                edits.push((format!("db.glasses[{:?}] removed", k), Box::new(move |d| { d.db.glasses.remove(&k); })));
+            }
+            let used_frames: std::collections::BTreeSet<String> = b.db.wincons.values().map(|c| c.frame.clone()).collect();
+            for k in used_frames {
+                edits.push((format!("db.frames[{:?}] removed", k), Box::new(move |d| { d.db.frames.remove(&k); })));
+            }
+            for i in 0..b.schedules.len() {
+                edits.push((format!("schedules[{}] removed", i), Box::new(move |d| { d.schedules.remove(i); })));
+            }
+            for (what, f) in &edits {
+                let mut d = d0.clone();
+                f(&mut d.bdldata);
+                cnt.fetch_add(1, std::sync::atomic::Ordering::Relaxed);
+                let case = || json!({"part": "data-level", "project": name, "edit": what});
+                match catch(std::panic::AssertUnwindSafe(|| corpus::convert(&d))) {
+                    Ok(Ok(m)) => {
+                        let defects = crate::refm::closure_defects(&m);
+                        let warns = bemodel::check(&m).len();
+                        if !defects.is_empty() || warns > 0 {
+                            let kind = what.split(|c: char| c == '[').next().unwrap_or("").to_string() + what.rsplit(')').next().unwrap_or("").trim();
+                            ctx.violation(&format!("broken-data-yields-open-model:{}", kind.replace(' ', "")), &format!("{}: {} still converts, to a model with missing/nil links: {:?} ({} checker warnings)", name, what, defects.iter().take(3).collect::<Vec<_>>(), warns), case());
+                        }
+                    }
+                    Ok(Err(_)) => ctx.nontriv(1),
+                    Err(p) => ctx.violation(&format!("panic:{}", panic_key(&p)), &format!("{}: {} makes the conversion panic: {}", name, what, p), case()),
+                }
+            }
+        });
+        data_n += cnt.load(std::sync::atomic::Ordering::Relaxed);
+        ctx.eval(data_n);
+        ctx.sample(json!({"part": "data-level", "project": "cubo.ctehexml", "edit": "windows[0] .wall -> unknown", "oracle": "Err, or a closed model"}));
+    }
+    // (e) a WINDOW block moved to another place of the document (its parent is the block it follows): behind the first
+    // block of every other type and to the very beginning of the building description
+    let mut moved_n = 0u64;
+    {
+        let mut sized: Vec<&FileCases> = st.files.iter().filter(|f| matches!(f.fmt, Fmt::Ctehexml)).collect();
+        sized.sort_by_key(|f| f.lines.len());
+        let mut texts: Vec<(String, String)> = sized.iter().take(ctx.tier.pick(2, 12)).map(|f| (f.path.rsplit('/').next().unwrap().to_string(), corpus::read_utf8(&f.path))).collect();
+        texts.push(("generated".into(), crate::projgen::ctehexml_text(&specs[specs.len() / 2])));
+        for (name, text) in &texts {
+            let blocks = text_blocks(text);
+            let Some(w) = blocks.iter().find(|b| b.0 == "WINDOW").cloned() else { continue };
+            let wtext = text[w.1..w.2].to_string();
+            let without = format!("{}{}", &text[..w.1], &text[w.2..]);
+            let blocks = text_blocks(&without);
+            let mut seen = std::collections::BTreeSet::new();
+            let mut targets: Vec<(String, usize)> = vec![];
+            if let Some(first) = blocks.first() {
+                targets.push(("the beginning".into(), first.1));
+            }
+            for b in &blocks {
+                if seen.insert(b.0.clone()) {
+                    targets.push((format!("behind the first {}", b.0), b.2));
+                }
+            }
+            for (place, pos) in targets {
+                let t1 = format!("{}{}{}", &without[..pos], wtext, &without[pos..]);
+                moved_n += 1;
+                let case = json!({"part": "moved-window", "project": name, "window_block_moved_to": place});
+                match corpus::convert_text(&t1, false) {
+                    corpus::Outcome::Ok(m) => {
+                        let defects = crate::refm::closure_defects(&m);
+                        let warns = bemodel::check(&m).len();
+                        if !defects.is_empty() || warns > 0 {
+                            ctx.violation(&format!("moved-window-yields-open-model:{}", place.rsplit(' ').next().unwrap_or("")), &format!("{}: a WINDOW block moved to {} still converts, to a model with missing/nil links: {:?} ({} checker warnings)", name, place, defects.iter().take(3).collect::<Vec<_>>(), warns), case);
+                        }
+                    }
+                    corpus::Outcome::Err(_) => ctx.nontriv(1),
+                    corpus::Outcome::Panic(p) => ctx.violation(&format!("panic:{}", panic_key(&p)), &format!("{}: WINDOW block moved to {}: {}", name, place, p), case),
+                }
+            }
+        }
+        ctx.eval(moved_n);
+    }
     // (c) single broken references / removed definitions
     let idxs = c02_indices(&st, ctx.tier);
     let tally = Mutex::new((0u64, 0u64, 0u64));
@@ -836,7 +998,7 @@ pub fn run_c02(ctx: &Ctx) -> i32 {
     if t.0 > 0 {
         ctx.outcome(&"still-ok");
     }
-    ctx.note("tally", json!({"project_files": nfiles, "converted": converted, "generated_projects": gen_n, "name_clash_variants": clash_n, "broken_reference_edits": idxs.len(), "rejected_with_error": t.1, "still_converted_to_identical_closed_model": t.0, "panicked": t.2}));
+    ctx.note("tally", json!({"project_files": nfiles, "converted": converted, "generated_projects": gen_n, "name_clash_variants": clash_n, "broken_reference_edits": idxs.len(), "data_level_edits": data_n, "moved_window_variants": moved_n, "rejected_with_error": t.1, "still_converted_to_identical_closed_model": t.0, "panicked": t.2}));
     if let Some(i) = idxs.get(idxs.len() / 2) {
         let fi = st.offsets.partition_point(|o| *o <= *i) - 1;
         ctx.sample(json!({"edit": st.files[fi].describe(*i - st.offsets[fi]).1}));
@@ -844,7 +1006,7 @@ pub fn run_c02(ctx: &Ctx) -> i32 {
     ctx.sample(json!({"part": "closure", "file": "cubo.ctehexml", "oracle": "ids unique per collection, 17 reference kinds resolve, no nil id, bemodel::check empty"}));
     ctx.finish(
         "fault_enumeration",
-        "(a) every shipped project (12 .ctehexml with catalog, 56 legacy .cte with catalog + default general data) and generated projects: a successful conversion must be referentially closed; the same closure oracle on every numeric token -> 0 and -> -1 of the smallest project of each format (3 smallest in thorough) (ids unique per collection, 17 reference kinds resolve, no nil id) and silent under bemodel::check; (b') every ordered pair of definition kinds (day/week/year schedule, material, glazing, frame, gap, polygon): a referenced definition of one kind renamed, with its references, to the name of a definition of the other kind (cubo and one generated project) must convert to the same closed model or fail; (c) every project obtained by renaming one reference occurrence (attribute keys POLYGON, CONSTRUCTION, LAYERS, MATERIAL, GLASS-TYPE, NAME-FRAME, GAP, SPACE-/SYSTEM-CONDITIONS, NEXT-TO, DAY-/WEEK-SCHEDULES, *-SCHEDULE, *-TEMP-SCH, SPACE-TYPE) or removing one definition block (quick: the 3 smallest projects of each format; thorough: all): the outcome must be an error, or - when the broken name was not needed - a closed model with exactly the same census of elements and resolved links as the intact project; a model with missing/nil links, a silently dropped link, a panic or a timeout is a violation; non-trivial = conversion outcome differs from plain success",
+        "(a) every shipped project (12 .ctehexml with catalog, 56 legacy .cte with catalog + default general data) and generated projects: a successful conversion must be referentially closed; the same closure oracle on every numeric token -> 0 and -> -1 of the smallest project of each format (3 smallest in thorough) (ids unique per collection, 17 reference kinds resolve, no nil id) and silent under bemodel::check; (b') every ordered pair of definition kinds (day/week/year schedule, material, glazing, frame, gap, polygon): a referenced definition of one kind renamed, with its references, to the name of a definition of the other kind (cubo and one generated project) must convert to the same closed model or fail; (d) on the parsed project data of the smallest projects of each format and generated ones: every wall's space / construction / adjacent-space name, every window's wall / construction name redirected to an unknown name (windows also with their shading devices removed), every wall and space renamed under its referrers, every construction, used material / glazing / frame and every schedule removed - the conversion must fail or give a closed model; (e) a WINDOW block moved behind the first block of every other type and to the beginning of the document; (c) every project obtained by renaming one reference occurrence (attribute keys POLYGON, CONSTRUCTION, LAYERS, MATERIAL, GLASS-TYPE, NAME-FRAME, GAP, SPACE-/SYSTEM-CONDITIONS, NEXT-TO, DAY-/WEEK-SCHEDULES, *-SCHEDULE, *-TEMP-SCH, SPACE-TYPE) or removing one definition block (quick: the 3 smallest projects of each format; thorough: all): the outcome must be an error, or - when the broken name was not needed - a closed model with exactly the same census of elements and resolved links as the intact project; a model with missing/nil links, a silently dropped link, a panic or a timeout is a violation; non-trivial = conversion outcome differs from plain success",
         true,
         json!({}),
     )
